@@ -14,3 +14,63 @@ def tst_trichotomy_like(a: TST, b: TST) -> int:
 def reported_remaining_lifetime(lt_ms_value: int) -> float:
     """what every indication reports as remaining packet lifetime (seconds) for a header lifetime of lt_ms_value ms"""
     return float(lt_ms_value // 1000)
+
+
+# ---------------------------------------------------------------- round trips (lemmas over the codec contracts)
+from flexstack.geonet.position_vector import LongPositionVector, ShortPositionVector
+from flexstack.geonet.gn_address import GNAddress
+from flexstack.geonet.basic_header import BasicHeader
+from flexstack.geonet.common_header import CommonHeader
+from flexstack.geonet.gbc_extended_header import GBCExtendedHeader
+from flexstack.geonet.tsb_extended_header import TSBExtendedHeader
+from flexstack.geonet.guc_extended_header import GUCExtendedHeader
+from flexstack.geonet.ls_extended_header import LSRequestExtendedHeader, LSReplyExtendedHeader
+from flexstack.btp.btp_header import BTPAHeader, BTPBHeader
+
+
+def rt_lpv(h: LongPositionVector) -> LongPositionVector:
+    return LongPositionVector.decode(h.encode())
+
+
+def rt_spv(h: ShortPositionVector) -> ShortPositionVector:
+    return ShortPositionVector.decode(h.encode())
+
+
+def rt_gn_addr(h: GNAddress) -> GNAddress:
+    return GNAddress.decode(h.encode())
+
+
+def rt_basic(h: BasicHeader) -> BasicHeader:
+    return BasicHeader.decode_from_bytes(h.encode_to_bytes())
+
+
+def rt_common(h: CommonHeader) -> CommonHeader:
+    return CommonHeader.decode_from_bytes(h.encode_to_bytes())
+
+
+def rt_gbc(h: GBCExtendedHeader) -> GBCExtendedHeader:
+    return GBCExtendedHeader.decode(h.encode())
+
+
+def rt_tsb(h: TSBExtendedHeader) -> TSBExtendedHeader:
+    return TSBExtendedHeader.decode(h.encode())
+
+
+def rt_guc(h: GUCExtendedHeader) -> GUCExtendedHeader:
+    return GUCExtendedHeader.decode(h.encode())
+
+
+def rt_ls_request(h: LSRequestExtendedHeader) -> LSRequestExtendedHeader:
+    return LSRequestExtendedHeader.decode(h.encode())
+
+
+def rt_ls_reply(h: LSReplyExtendedHeader) -> LSReplyExtendedHeader:
+    return LSReplyExtendedHeader.decode(h.encode())
+
+
+def rt_btp_a(h: BTPAHeader) -> BTPAHeader:
+    return BTPAHeader.decode(h.encode())
+
+
+def rt_btp_b(h: BTPBHeader) -> BTPBHeader:
+    return BTPBHeader.decode(h.encode())
